@@ -262,3 +262,47 @@ pub fn nx1_real<const N: usize, const W: usize>(nd: &mut Nd) {
     }
     chk!(nd, "C15.real.submul_nx1", ok);
 }
+
+/// addmul on the "unit-limb" sub-domain: every limb of `a` is 0 or 1 (one free bit), `b` and the accumulator are FULL,
+/// one harness per operand order (SWAP).  The DoubleWord bodies are stubbed by the UF table as in `addmul_uf`, but on this sub-domain
+/// every product is fixed by the axioms 0*x = 0 and 1*x = x, so the abstraction is EXACT: a counterexample is a real one
+/// and reproduces natively (the FULL-domain UF harnesses also cover products of large limbs, but their counterexamples
+/// live in the abstraction and need not reproduce).  Real multipliers on a 2-bit operand were probed instead: the
+/// 128-bit product circuits cost 6-12 GB per harness.
+pub fn addmul_unit<const NL: usize, const NA: usize, const NB: usize, const W: usize, const SWAP: usize>(nd: &mut Nd) {
+    let l: [u64; NL] = nd.limbs();
+    let mut a = [0u64; NA];
+    let mut i = 0;
+    while i < NA {
+        a[i] = (nd.u8() & 1) as u64;
+        i += 1;
+    }
+    let b: [u64; NB] = nd.limbs();
+    let swap = SWAP != 0;
+    let mut acc = [0u64; W];
+    let mut i = 0;
+    while i < NL {
+        acc[i] = l[i];
+        i += 1;
+    }
+    let lost = uf::school::<W>(&mut acc, &a, &b);
+    let mut high = lost;
+    let mut i = NL;
+    while i < W {
+        high |= acc[i] != 0;
+        i += 1;
+    }
+    cov!(nd, "overflows", high);
+    cov!(nd, "fits", !high);
+    let mut r = l;
+    // either operand order (addmul takes the shorter one as the outer loop and trims both)
+    let flag = if swap { alg::addmul(&mut r, &b, &a) } else { alg::addmul(&mut r, &a, &b) };
+    let mut ok = true;
+    let mut i = 0;
+    while i < NL {
+        ok &= r[i] == acc[i];
+        i += 1;
+    }
+    chk!(nd, "C15.addmul.limbs", ok);
+    chk!(nd, "C15.addmul.flag", flag == high);
+}
